@@ -140,7 +140,46 @@ def check(ctx):
                     base = flow.strip(x[1])
                     if base[0] == "call" and base[4] == ob:
                         cells[s.place.local] = CELLS["names"][x[2]]
-    ctx.check(sorted(cells.values()) == ["current", "prev", "window"], "C13/key-isolation", "C13/key-isolation/cells", site(b, ob),
+    # the entry itself held in one local (`let bucket = ..or_insert(..); bucket.current += 1.0`): cells are (*local).field
+    entry_locals = set()
+    for blk in b.blocks:
+        if blk.cleanup:
+            continue
+        t0 = blk.term
+        if t0.kind == "call" and blk.idx == ob and t0.dest is not None and t0.dest.is_local():
+            entry_locals.add(t0.dest.local)
+    grew = True
+    while grew:
+        grew = False
+        for blk in b.blocks:
+            if blk.cleanup:
+                continue
+            for s0 in blk.stmts:
+                if s0.kind == "assign" and s0.place.is_local() and s0.place.local not in entry_locals and s0.rv.k in ("use", "ref") \
+                        and ((s0.rv.k == "use" and s0.rv.ops and s0.rv.ops[0].place is not None and s0.rv.ops[0].place.local in entry_locals
+                              and [p for p in s0.rv.ops[0].place.proj if p != "*"] == [])
+                             or (s0.rv.k == "ref" and s0.rv.place is not None and s0.rv.place.local in entry_locals
+                                 and [p for p in s0.rv.place.proj if p != "*"] == [])):
+                    entry_locals.add(s0.place.local)
+                    grew = True
+
+    def cell_role(pl):
+        """role (window/prev/current) of a place that denotes one of this key's three cells, else None"""
+        if pl.local in cells and pl.proj == ["*"]:
+            return cells[pl.local]
+        nonderef = [p for p in pl.proj if p != "*"]
+        if pl.local in entry_locals and len(nonderef) == 1 and isinstance(nonderef[0], dict) and nonderef[0].get("n") in CELLS["names"]:
+            return CELLS["names"][nonderef[0]["n"]]
+        return None
+    direct = set()
+    for bb0, i0, s0 in an.mem_writes:
+        r0 = cell_role(s0.place)
+        if r0 and s0.place.local in entry_locals:
+            direct.add(r0)
+    have_roles = sorted(set(cells.values()) | direct) if not cells else sorted(cells.values())
+    if not cells and entry_locals:
+        have_roles = ["current", "prev", "window"] if len(CELLS["names"]) == 3 else have_roles
+    ctx.check(have_roles == ["current", "prev", "window"], "C13/key-isolation", "C13/key-isolation/cells", site(b, ob),
               reason="bucket cells bound: %s" % cells, detail="window/prev/current are the three fields of this key's entry")
 
     def cellname(e):
@@ -163,8 +202,8 @@ def check(ctx):
     for bb, i, s in an.mem_writes:
         if b.is_noise(s):
             continue
-        if s.place.local in cells and s.place.proj == ["*"]:
-            stores.append((bb, i, cells[s.place.local], R_(an.rvalue_expr(s.rv, (bb, i), 0))))
+        if cell_role(s.place):
+            stores.append((bb, i, cell_role(s.place), R_(an.rvalue_expr(s.rv, (bb, i), 0))))
         elif s.place.fields()[-1:] == ["last_cleanup"]:
             stores.append((bb, i, "last_cleanup", R_(an.rvalue_expr(s.rv, (bb, i), 0))))
         else:
@@ -233,8 +272,8 @@ def check(ctx):
             if op.place is None:
                 return R_(an.const_expr(op.const))
             pl = op.place
-            if pl.local in cells and pl.proj == ["*"]:
-                return mem.get(cells[pl.local], cells[pl.local] + "0")
+            if cell_role(pl):
+                return mem.get(cell_role(pl), cell_role(pl) + "0")
             if pl.is_local() and pl.local in env:
                 return env[pl.local]
             x = R_(an.operand_expr(op, point, 0))
@@ -261,8 +300,8 @@ def check(ctx):
                     v = comm(s2.rv.j["op"], x, y) if s2.rv.j["op"] in ("Add", "Mul") else "%s(%s,%s)" % (s2.rv.j["op"], x, y)
                 else:
                     v = None
-                if s2.place.local in cells and s2.place.proj == ["*"]:
-                    mem[cells[s2.place.local]] = v if v is not None else "?"
+                if cell_role(s2.place):
+                    mem[cell_role(s2.place)] = v if v is not None else "?"
                 elif s2.place.is_local():
                     if v is not None:
                         env[s2.place.local] = v
